@@ -63,7 +63,7 @@ def run(ctx, clauses=CLAUSES, prop_note=None):
         big.append(sc.random_sinput(rng, FAM, 5, 4, 4, min_obj=4))
     # three object leaves on three species leaves: every leaf assignment x every tuple of leaf orders
     tiny3 = list(sc.small_inputs(FAM, gen.bin_shapes(3), gen.bin_shapes(3), LEAF_SYNS, sc.SUPER_COSTS[:1]))
-    big += sc.nested_ordered_inputs(rng, 1500 if thorough else 200, sc.SUPER_COSTS, deep=thorough)
+    big += sc.nested_ordered_inputs(rng, 500 if thorough else 200, sc.SUPER_COSTS, deep=thorough)
     e2 = (tiny[::2] + mid + tiny3[ctx.seed % 3::3]) if not thorough else tiny + mid + tiny3
     cases = [(FAM, inp, sc.CALLS) for inp in list(dict.fromkeys(e2 + big))]
     if thorough:
